@@ -44,7 +44,49 @@ Example C14_example :
   = [Some 2; Some 5; Some 4; Some 3; None; None; None].
 Proof. split; [unfold cur_wf; cbn; lia | vm_compute; reflexivity]. Qed.
 
+(* ---- histories ---- *)
+From AV.Model Require Import Interp.
+From AV.Spec Require Import WorldSpec.
+From AV.Proofs Require Import WorldProofs.
+(** WHOLE HISTORIES: iter / iter_mut (typed and erased), an iterator and its clone, nth / nth_back are part of the history fragment of AV.Props.C01.  On the list specification [WorldSpec.sp_look] the iterator is the index cursor [i, j) over the vector's list: next() yields xs[i] and moves i up, next_back() yields xs[j-1] and moves j down, the size hint after every call is exactly j - i, an exhausted cursor keeps answering None ([sp_walk_ro]); a clone continues from the same position without disturbing the original ([sp_adv]); nth(n) / nth_back(n) yield the n-th element from that end and consume n + 1, or exhaust the iterator ([sp_walk_nth]).  The byte-level machine does exactly this for EVERY call sequence at any point of any history, and leaves every vector untouched ([C14_look_in_histories], by the inductions [C14_walk_ro], [C14_walk_nth]). *)
+Theorem C14_walk_ro :
+  forall (c : Vec.cfg) (w : world) (vid : nat) (av : avec) (vv : Vec.vec),
+         get_vec vid w = Some vv ->
+         VI c vv av ->
+         forall (pat : list bool) (i j : nat) (ww : world),
+         same_world w ww ->
+         (i <= j)%nat ->
+         (j <= length (a_xs av))%nat ->
+         exists ww' : world,
+           walk_ro c vid pat {| ci := N.of_nat i; ce := N.of_nat j |} ww =
+           Ok (sp_walk_ro (a_xs av) pat i j) ww' /\ same_world w ww'.
+Proof. exact walk_ro_spec. Qed.
+
+Theorem C14_walk_nth :
+  forall (c : Vec.cfg) (w : world) (vid : nat) (av : avec) (vv : Vec.vec),
+         get_vec vid w = Some vv ->
+         VI c vv av ->
+         forall (pat : list (bool * N)) (i j : nat) (ww : world),
+         same_world w ww ->
+         (i <= j)%nat ->
+         (j <= length (a_xs av))%nat ->
+         exists ww' : world,
+           walk_nth c vid pat {| ci := N.of_nat i; ce := N.of_nat j |} ww =
+           Ok (sp_walk_nth (a_xs av) pat i j) ww' /\ same_world w ww'.
+Proof. exact walk_nth_spec. Qed.
+
+Theorem C14_look_in_histories :
+  forall (c : Vec.cfg) (w : world) (st : astate) (o : op) (r : sres),
+         Rep.cfg_wf c ->
+         WRep c w st ->
+         ufuse (wuw w) = None -> sp_look c st (unext (wuw w)) o = Some r -> res_matches c w (exec c o w) r.
+Proof. exact exec_look. Qed.
+
+(* ---- end histories ---- *)
 Print Assumptions C14_partition.
 Print Assumptions C14_exact_size.
 Print Assumptions C14_fused.
 Print Assumptions C14_positions_distinct.
+Print Assumptions C14_walk_ro.
+Print Assumptions C14_walk_nth.
+Print Assumptions C14_look_in_histories.
